@@ -313,6 +313,99 @@ def check_div(res, facts):
             rule.bad(key, "division loop does not re-evaluate the degrees of remainder and divisor", fn.loc)
 
 
+# ---- R-COSETFOLD -------------------------------------------------------------------------------------------
+
+def check_cosetfold(res, facts):
+    """evaluating a polynomial longer than the domain over the coset h*H folds coefficient chunk k (k >= 1) into the
+    first chunk with multiplier h^(k*size) (because x^size = h^size on the coset).  Both arms (borrowed / owned) must
+    use that multiplier: either in closed form offset^((i+1)*size) or as a running power started at offset^size and
+    advanced by offset^size."""
+    from rules.c07 import E, show, A, C, qeq
+    from rules.c17 import to_q, NotPoly
+    from arklib.poly import Q
+    from arklib.facts import closure_args, place_parts
+    rule = res.rule("R-COSETFOLD", "evaluate_over_domain: coefficient chunk k is folded with multiplier offset^(k*size) in both the borrowed and the owned arm", 2)
+    fns = [f for f in facts.fns(unit="ws", crate="ark_poly") if f.kind != "Closure" and f.name == "eval_over_domain_helper"]
+    if not fns:
+        rule.bad("ark_poly|eval_over_domain_helper", "anchor missing")
+        return
+    fn = fns[0]
+    offset, size = C("coset_offset", A(2)), C("size", A(2))
+    from rules.c07 import norm
+    E = lambda f_, o_: norm(DF.expr(f_, o_, depth=40, mut_as_phi=True))
+    sites = []
+    for bb, t in fn.calls():
+        if t["f"].get("name") != "for_each":
+            continue
+        env = E(fn, t["args"][1])
+        if not (isinstance(env, tuple) and env[0] == "agg" and len(env[2]) == 1):
+            continue
+        src = E(fn, t["args"][0])
+        arm = "owned" if "chunks_mut" in show(src) else "borrowed"
+        sites.append((bb, arm, env[2][0], t))
+    if len(sites) != 2:
+        rule.bad("ark_poly|eval_over_domain_helper", "expected two scaled folds (borrowed and owned arm), found %d" % len(sites), fn.loc)
+        return
+
+    def expo(t, idx_names):
+        e = Q.const(1)
+
+        def leaf(x):
+            if x == size or x == ("pow-size",):
+                return "n"
+            if isinstance(x, tuple) and x[0] == "call" and x[1] == "next" and len(x) > 3 and x[3] == ("0", "0"):
+                return "i"
+            return "<%s>" % show(x)[:60]
+        while isinstance(t, tuple) and t[0] == "pow":
+            e = e * to_q(t[2], leaf)
+            t = t[1]
+        if t == C("coset_offset_pow_size", A(2)):
+            return offset, e * Q.var("n")
+        return t, e
+    for bb, arm, mult, t in sites:
+        key = "ark_poly|eval_over_domain_helper|%s" % arm
+        # the closure multiplies the chunk element by its capture
+        ok_clo = False
+        for cid in closure_args(fn, t):
+            clo = facts.get(cid, fn.unit)
+            if clo is None:
+                continue
+            calls = [(ct["f"].get("name"), [E(clo, a) for a in ct["args"]]) for _, ct in clo.calls()]
+            ok_clo = any(n == "add_assign" and a[0] == A(2, "0") and a[1] in (C("mul", A(1, "0"), A(2, "1")), C("mul", A(2, "1"), A(1, "0"))) for n, a in calls)
+        if not ok_clo:
+            rule.bad(key, "fold closure is not *x += multiplier * y", fn.loc)
+            continue
+        try:
+            if isinstance(mult, tuple) and mult[0] == "phi":
+                # running power: initial value and in-loop update
+                loc = mult[1]
+                inits, steps = [], []
+                for d in fn.defs().get(loc, []):
+                    if d[2] == "assign" and d[3]["r"]["k"] == "use":
+                        inits.append(E(fn, d[3]["r"]["o"]))
+                for b2, t2 in fn.calls():
+                    if t2["f"].get("name") == "mul_assign" and E(fn, t2["args"][0]) == mult:
+                        steps.append(E(fn, t2["args"][1]))
+                good = len(inits) == 1 and len(steps) == 1
+                if good:
+                    b0, e0 = expo(inits[0], {})
+                    b1, e1 = expo(steps[0], {})
+                    good = b0 == offset and b1 == offset and qeq(e0, Q.var("n")) and qeq(e1, Q.var("n"))
+                if good:
+                    rule.ok(key, "running power: starts at offset^size, advanced by offset^size per chunk", fn.loc)
+                else:
+                    rule.bad(key, "running multiplier starts at %s and is advanced by %s per chunk; chunk k needs offset^(k*size), i.e. start offset^size and step offset^size" % ([show(x) for x in inits], [show(x) for x in steps]), fn.loc)
+            else:
+                b, e = expo(mult, {})
+                want = (Q.var("i") + Q.const(1)) * Q.var("n")
+                if b == offset and qeq(e, want):
+                    rule.ok(key, "multiplier offset^((i+1)*size)", fn.loc)
+                else:
+                    rule.bad(key, "chunk i+1 is folded with %s (exponent %s of %s); it needs offset^((i+1)*size)" % (show(mult)[:160], e, show(b)[:60]), fn.loc)
+        except NotPoly as ex:
+            rule.undecided(key, "multiplier exponent not polynomial: %s" % ex, fn.loc)
+
+
 def run(ctx, res):
     facts = ctx.facts(["ws"])
     res.analysed = facts.stats()
@@ -320,6 +413,7 @@ def run(ctx, res):
     check_sparse(res, facts)
     check_div(res, facts)
     lincomb.check_poly_ops(res, facts)
+    check_cosetfold(res, facts)
     return {
         "level": "other",
         "explanation": "Typestate (must-pass-through) analysis over the MIR of ark-poly: every write access to a dense polynomial's coefficient vector must be followed on all paths by the strip-leading-zeros loop; computed sparse terms must be pushed under a non-zero guard; structure of division; operators defined through other operators evaluated symbolically as linear combinations of their operands. Does NOT decide coefficient-level results (loops over run-time lengths), FFT multiplication or evaluation.",
